@@ -406,8 +406,18 @@ func runWorld(t *testing.T, res *vh.Result, tr *vh.Trace, wi int, sched []step, 
 			s = step{Op: "headers", N: 7}
 		case "mpt":
 			s = step{Op: "nodes", N: 5, Order: "asc"}
+			// what a faulty or slow peer adds while the rest is delivered: junk and repeated batches
+			switch r.Intn(12) {
+			case 0:
+				s = step{Op: "junknode"}
+			case 1:
+				s = step{Op: "dupnodes"}
+			}
 		case "blocks":
-			s = step{Op: "blocks", N: 3}
+			s = step{Op: "blocks", N: 1 + r.Intn(3)}
+			if r.Intn(2) == 0 {
+				s = step{Op: "junkblock"} // the next block with a damaged or stripped body arrives before the honest copy
+			}
 		default:
 			fail("stuck", "state synchronisation is active but needs nothing", nil)
 			return
